@@ -380,11 +380,12 @@ Definition holds_C10_price (init disc prev cur : Z) : bool :=
 Definition holds_C10_price_mono (init prev cur : Z) : bool := (cur <=? prev) && (prev <=? init).
 
 (* one successful bid: [coll], [debt], [bonus], [pc] = the auction record before the bid, [pd] the debt
-   price used; tolerances: one collateral unit per conversion, two debt units in the exhausted branch *)
+   price used; tolerances: one collateral unit per conversion, three debt units in the exhausted branch
+   (proved for the model as Properties/C10.v:c10_bid_price) *)
 Definition holds_C10_bid (dc dd pc pd coll debt bonus paid recv : Z) (closed : bool) : bool :=
   (0 <=? paid) && (0 <=? recv) && (paid <=? debt) && (recv <=? coll) &&
   (if closed
-   then (recv - 2) * (pc * dd) <=? (paid + 2 + bonus) * (pd * dc)
+   then (recv - 2) * (pc * dd) <=? (paid + 3 + bonus) * (pd * dc)
    else (recv - 1) * (pc * dd) <=? paid * (pd * dc)).
 
 (* totals over the life of one auction *)
